@@ -685,9 +685,15 @@ func writeEvidence(id, tier string, seed uint64, pc tierCfg, agg *workerOut, fps
 		"wall_s":      wall,
 		"violations":  violations,
 	}
-	_ = os.MkdirAll(filepath.Join(verifDir, "evidence"), 0o755)
+	evDir := filepath.Join(verifDir, "evidence")
+	if d := os.Getenv("VERIF_EVIDENCE_DIR"); d != "" {
+		// (the tools that run the checks against deliberately modified trees keep
+		// their evidence out of /verif/evidence)
+		evDir = d
+	}
+	_ = os.MkdirAll(evDir, 0o755)
 	b, _ := json.MarshalIndent(ev, "", " ")
-	if err := os.WriteFile(filepath.Join(verifDir, "evidence", id+".json"), b, 0o644); err != nil {
+	if err := os.WriteFile(filepath.Join(evDir, id+".json"), b, 0o644); err != nil {
 		infra("evidence: %v", err)
 	}
 }
